@@ -847,6 +847,19 @@ func genDatagram(t *rapid.T) []byte {
 		rapid.IntRange(0, 24), rapid.IntRange(247, 262), rapid.IntRange(247, 262), rapid.IntRange(0, 600),
 		rapid.IntRange(0, 600), rapid.IntRange(0, 600), rapid.IntRange(8170, 8190), rapid.IntRange(0, 8188)).Draw(t, "bodylen")
 	body := rapid.SliceOfN(rapid.Byte(), n, n).Draw(t, "body")
+	// degenerate contents: the whole body, or its tail (a variable part), made of one repeated octet
+	// (NUL-only / 0xFF-only names, client ids, payloads ...)
+	switch rapid.IntRange(0, 9).Draw(t, "fill") {
+	case 0, 1:
+		c := rapid.SampledFrom([]byte{0x00, 0x01, 0x61, 0xFF}).Draw(t, "fillbyte")
+		from := 0
+		if rapid.Bool().Draw(t, "filltail") && n > 0 {
+			from = rapid.IntRange(0, min(n, 7)).Draw(t, "fillfrom")
+		}
+		for i := from; i < n; i++ {
+			body[i] = c
+		}
+	}
 	// type-specific structure
 	if n >= 2 {
 		switch ty {
